@@ -1,0 +1,199 @@
+//go:build verif
+
+// Contracts for the verification machinery in /verif (comment-only; never compiled into a binary).
+// Property C14: batch pod cgroup limits match declared amounts; pod no tighter than a container.
+
+package batchresource
+
+//@ uses apis/extension, pkg/util, pkg/koordlet/util/system, pkg/koordlet/runtimehooks/protocol
+
+//@ spec func beLabels(l map[string]string) bool = has(l, apiext.LabelPodQoS) && apiext.QoSClass(l[apiext.LabelPodQoS]) == apiext.QoSBE
+
+// The "standard conversion" of the property statement (kubelet's MilliCPUToShares / MilliCPUToQuota with a 100ms
+// period; proven equal to the code in pkg/koordlet/util/system), written independently of the code.
+//@ spec func sharesOf(m int64) int64 = m <= 0 ? 2 : max(2, min(262144, m * 1024 / 1000))
+//@ spec func quotaOf(m int64) int64 = m <= 0 ? 0 - 1 : (m < 10 ? 1000 : m * 100)
+// Division by the node's CPU normalization ratio applies only to a limited quota and a ratio above 1.
+//@ spec func scaled(q int64, ratio float64) int64 = (q > 0 && ratio > 1) ? ceil(real(q) / ratio) : q
+// Declared batch amounts of a resource list; -1 when undeclared (nil list or no entry).
+//@ spec func batchCPU(r corev1.ResourceList) int64 = (r != nil && has(r, apiext.BatchCPU)) ? r[apiext.BatchCPU].Value() : 0 - 1
+//@ spec func batchMem(r corev1.ResourceList) int64 = (r != nil && has(r, apiext.BatchMemory)) ? r[apiext.BatchMemory].Value() : 0 - 1
+
+// "Pod no tighter than any container": the conversions are monotone, so a pod value computed from an amount that
+// is >= a container's amount is >= that container's value (and a limited pod value means the amount was positive).
+//@ lemma sharesMonotone [C14]: forall a int64, b int64 :: a <= b ==> sharesOf(a) <= sharesOf(b)
+//@ lemma quotaMonotone [C14]: forall a int64, b int64 :: 0 < a && a <= b ==> 0 < quotaOf(a) && quotaOf(a) <= quotaOf(b)
+//@ lemma quotaUnlimited [C14]: forall a int64 :: quotaOf(a) == 0 - 1 <==> a <= 0
+//@ lemma scaledMonotone [C14]: forall p int64, q int64, r float64 :: 0 < p && p <= q ==> 0 < scaled(p, r) && scaled(p, r) <= scaled(q, r)
+//@ lemma cfsNoTighter [C14]: forall a int64, acc int64, r float64 :: 0 < a && a <= acc ==> 0 < scaled(quotaOf(a), r) && scaled(quotaOf(a), r) <= scaled(quotaOf(acc), r)
+//@ lemma scaledUnlimited [C14]: forall q int64, r float64 :: q <= 0 ==> scaled(q, r) == q
+
+// ---- container level ----
+// c is the hook context passed as the interface value; a typed nil context is rejected with an error.
+// "Untouched": the pod is not best-effort (label koordinator.sh/qosClass != BE) or carries no extended-resource
+// spec for this container; then the response field keeps its entry value. The modifies clause states that no
+// other field of any object changes in any case.
+
+//@ func (*plugin).SetContainerCPUShares [C14]
+//@   requires typeis(proto, *protocol.ContainerContext)
+//@   let c = payload(proto, *protocol.ContainerContext)
+//@   let spec = c.Request.ExtendedResources
+//@   requires c != nil && spec != nil ==> batchCPU(spec.Requests) <= 1000000000000000
+//@   ensures #nilctx: (c == nil) == (result != nil)
+//@   ensures #untouched: c != nil && !(beLabels(c.Request.PodLabels) && spec != nil) ==> c.Response.Resources.CPUShares == old(c.Response.Resources.CPUShares)
+//@   ensures #value: c != nil && beLabels(c.Request.PodLabels) && spec != nil ==> c.Response.Resources.CPUShares != nil && deref(c.Response.Resources.CPUShares) == sharesOf(batchCPU(spec.Requests))
+//@   modifies c.Response.Resources.CPUShares
+
+//@ func (*plugin).SetContainerCFSQuota [C14]
+//@   requires typeis(proto, *protocol.ContainerContext)
+//@   requires p != nil && p.rule != nil
+//@   let c = payload(proto, *protocol.ContainerContext)
+//@   let spec = c.Request.ExtendedResources
+//@   let enabled = p.rule.enableCFSQuota == nil || deref(p.rule.enableCFSQuota)
+//@   let ratio = p.rule.cpuNormalizationRatio != nil ? deref(p.rule.cpuNormalizationRatio) : 0 - 1
+//@   requires c != nil && spec != nil ==> batchCPU(spec.Limits) <= 50000000000000
+//@   ensures #nilctx: (c == nil) == (result != nil)
+//@   ensures #untouched: c != nil && !(beLabels(c.Request.PodLabels) && spec != nil) ==> c.Response.Resources.CFSQuota == old(c.Response.Resources.CFSQuota)
+//@   ensures #value: c != nil && beLabels(c.Request.PodLabels) && spec != nil ==> c.Response.Resources.CFSQuota != nil && deref(c.Response.Resources.CFSQuota) == (enabled ? scaled(quotaOf(batchCPU(spec.Limits)), ratio) : 0 - 1)
+//@   modifies c.Response.Resources.CFSQuota
+
+//@ func (*plugin).SetContainerMemoryLimit [C14]
+//@   requires typeis(proto, *protocol.ContainerContext)
+//@   let c = payload(proto, *protocol.ContainerContext)
+//@   let spec = c.Request.ExtendedResources
+//@   ensures #nilctx: (c == nil) == (result != nil)
+//@   ensures #untouched: c != nil && !(beLabels(c.Request.PodLabels) && spec != nil) ==> c.Response.Resources.MemoryLimit == old(c.Response.Resources.MemoryLimit)
+//@   ensures #value: c != nil && beLabels(c.Request.PodLabels) && spec != nil ==> c.Response.Resources.MemoryLimit != nil && deref(c.Response.Resources.MemoryLimit) == (batchMem(spec.Limits) > 0 ? batchMem(spec.Limits) : 0 - 1)
+//@   modifies c.Response.Resources.MemoryLimit
+
+// The registered container hook (PreCreateContainer / PreUpdateContainerResources): all three values at once.
+//@ func (*plugin).SetContainerResources [C14]
+//@   requires typeis(proto, *protocol.ContainerContext)
+//@   requires p != nil && p.rule != nil
+//@   let c = payload(proto, *protocol.ContainerContext)
+//@   let spec = c.Request.ExtendedResources
+//@   let active = c != nil && beLabels(c.Request.PodLabels) && spec != nil
+//@   let enabled = p.rule.enableCFSQuota == nil || deref(p.rule.enableCFSQuota)
+//@   let ratio = p.rule.cpuNormalizationRatio != nil ? deref(p.rule.cpuNormalizationRatio) : 0 - 1
+//@   requires c != nil && spec != nil ==> batchCPU(spec.Requests) <= 1000000000000000 && batchCPU(spec.Limits) <= 50000000000000
+//@   ensures #untouched: c != nil && !active ==> c.Response.Resources.CPUShares == old(c.Response.Resources.CPUShares) && c.Response.Resources.CFSQuota == old(c.Response.Resources.CFSQuota) && c.Response.Resources.MemoryLimit == old(c.Response.Resources.MemoryLimit)
+//@   ensures #shares: active ==> c.Response.Resources.CPUShares != nil && deref(c.Response.Resources.CPUShares) == sharesOf(batchCPU(spec.Requests))
+//@   ensures #quota: active ==> c.Response.Resources.CFSQuota != nil && deref(c.Response.Resources.CFSQuota) == (enabled ? scaled(quotaOf(batchCPU(spec.Limits)), ratio) : 0 - 1)
+//@   ensures #memory: active ==> c.Response.Resources.MemoryLimit != nil && deref(c.Response.Resources.MemoryLimit) == (batchMem(spec.Limits) > 0 ? batchMem(spec.Limits) : 0 - 1)
+//@   modifies c.Response.Resources.CPUShares, c.Response.Resources.CFSQuota, c.Response.Resources.MemoryLimit
+
+// ---- pod level ----
+// The spec language has no recursive sum over a map, so "pod value = conversion of the sum" is stated by what the
+// sum implies: unlimited (-1) as soon as some listed container is unlimited (and only then, or for an empty map);
+// otherwise every listed amount is positive and the accumulated amount is >= each of them, >= the sum of any two
+// distinct ones (so it is not a maximum), and equal to the amount when exactly one container is listed. The
+// #notighter clauses state "pod no tighter than any container" directly on the converted values.
+// $n (number of keys visited) bounds the sum so that the conversions are called inside their proven range.
+
+//@ func (*plugin).SetPodMemoryLimit [C14]
+//@   requires typeis(proto, *protocol.PodContext)
+//@   let c = payload(proto, *protocol.PodContext)
+//@   let spec = c.Request.ExtendedResources
+//@   let active = c != nil && beLabels(c.Request.Labels) && spec != nil
+//@   ensures #nilctx: (c == nil) == (result != nil)
+//@   ensures #untouched: c != nil && !active ==> c.Response.Resources.MemoryLimit == old(c.Response.Resources.MemoryLimit)
+//@   ensures #set: active ==> c.Response.Resources.MemoryLimit != nil
+//@   ensures #unlimited: active && (exists k string :: has(spec.Containers, k) && batchMem(spec.Containers[k].Limits) <= 0) ==> deref(c.Response.Resources.MemoryLimit) == 0 - 1
+//@   ensures #unlimited_only: active && deref(c.Response.Resources.MemoryLimit) == 0 - 1 ==> (exists k string :: has(spec.Containers, k) && batchMem(spec.Containers[k].Limits) <= 0) || (forall k string :: !has(spec.Containers, k))
+//@   ensures #notighter: active && deref(c.Response.Resources.MemoryLimit) != 0 - 1 ==> (forall k string :: has(spec.Containers, k) ==> batchMem(spec.Containers[k].Limits) > 0 && deref(c.Response.Resources.MemoryLimit) >= batchMem(spec.Containers[k].Limits))
+//@   ensures #pairsum: active && deref(c.Response.Resources.MemoryLimit) != 0 - 1 ==> (forall k string, j string :: has(spec.Containers, k) && has(spec.Containers, j) && k != j ==> deref(c.Response.Resources.MemoryLimit) >= batchMem(spec.Containers[k].Limits) + batchMem(spec.Containers[j].Limits))
+//@   ensures #single: active ==> (forall k string :: has(spec.Containers, k) && (forall j string :: has(spec.Containers, j) ==> j == k) && batchMem(spec.Containers[k].Limits) > 0 ==> deref(c.Response.Resources.MemoryLimit) == batchMem(spec.Containers[k].Limits))
+// N5 (open question, NOT enforced): an empty container map declares no limit, so by the property's rule (undeclared =
+// unlimited, as SetContainerMemoryLimit does) the pod value should be -1; the code yields 0. The clause below fails with
+// exactly that input (spec.Containers = {}); it is left disabled so that callers do not assume a false fact. The
+// clauses above are neutral about the empty map.
+//   ensures #empty: active && (forall k string :: !has(spec.Containers, k)) ==> deref(c.Response.Resources.MemoryLimit) == 0 - 1
+//@   modifies c.Response.Resources.MemoryLimit
+//@   loop 1 invariant memoryLimit >= 0 && ((forall k string :: !$seen[k]) ==> memoryLimit == 0)
+//@   loop 1 invariant forall k string :: $seen[k] && (forall j string :: $seen[j] ==> j == k) ==> memoryLimit == batchMem(extendedResourceSpec.Containers[k].Limits)
+//@   loop 1 invariant forall k string :: $seen[k] ==> has(extendedResourceSpec.Containers, k) && batchMem(extendedResourceSpec.Containers[k].Limits) > 0 && memoryLimit >= batchMem(extendedResourceSpec.Containers[k].Limits)
+//@   loop 1 invariant forall k string, j string :: $seen[k] && $seen[j] && k != j ==> memoryLimit >= batchMem(extendedResourceSpec.Containers[k].Limits) + batchMem(extendedResourceSpec.Containers[j].Limits)
+
+// Shares: containers without a positive declared request contribute nothing (they get the minimum themselves).
+//@ func (*plugin).SetPodCPUShares [C14]
+//@   requires typeis(proto, *protocol.PodContext)
+//@   let c = payload(proto, *protocol.PodContext)
+//@   let spec = c.Request.ExtendedResources
+//@   let active = c != nil && beLabels(c.Request.Labels) && spec != nil
+//@   requires active ==> len(spec.Containers) <= 1000 && (forall k string :: has(spec.Containers, k) ==> batchCPU(spec.Containers[k].Requests) <= 1000000000000)   // keeps the sum inside MilliCPUToShares' proven range
+//@   ensures #nilctx: (c == nil) == (result != nil)
+//@   ensures #untouched: c != nil && !active ==> c.Response.Resources.CPUShares == old(c.Response.Resources.CPUShares)
+//@   ensures #set: active ==> c.Response.Resources.CPUShares != nil
+//@   ensures #notighter: active ==> (forall k string :: has(spec.Containers, k) ==> deref(c.Response.Resources.CPUShares) >= sharesOf(batchCPU(spec.Containers[k].Requests)))
+//@   ensures #pairsum: active ==> (forall k string, j string :: has(spec.Containers, k) && has(spec.Containers, j) && k != j ==> deref(c.Response.Resources.CPUShares) >= sharesOf(max0(batchCPU(spec.Containers[k].Requests)) + max0(batchCPU(spec.Containers[j].Requests))))
+//@   ensures #single: active ==> (forall k string :: has(spec.Containers, k) && (forall j string :: has(spec.Containers, j) ==> j == k) ==> deref(c.Response.Resources.CPUShares) == sharesOf(batchCPU(spec.Containers[k].Requests)))
+//@   ensures #none: active && (forall k string :: has(spec.Containers, k) ==> batchCPU(spec.Containers[k].Requests) <= 0) ==> deref(c.Response.Resources.CPUShares) == 2
+//@   modifies c.Response.Resources.CPUShares
+//@   loop 1 invariant milliCPURequest <= 1000000000000 * $n
+//@   loop 1 invariant milliCPURequest >= 0 && ((forall k string :: $seen[k] ==> batchCPU(extendedResourceSpec.Containers[k].Requests) <= 0) ==> milliCPURequest == 0)
+//@   loop 1 invariant forall k string :: $seen[k] ==> has(extendedResourceSpec.Containers, k) && milliCPURequest >= batchCPU(extendedResourceSpec.Containers[k].Requests)
+//@   loop 1 invariant forall k string, j string :: $seen[k] && $seen[j] && k != j ==> milliCPURequest >= max0(batchCPU(extendedResourceSpec.Containers[k].Requests)) + max0(batchCPU(extendedResourceSpec.Containers[j].Requests))
+//@   loop 1 invariant forall k string :: $seen[k] && (forall j string :: $seen[j] ==> j == k) ==> milliCPURequest == max0(batchCPU(extendedResourceSpec.Containers[k].Requests))
+
+// Quota: -1 when CFS quota is disabled by the rule, when a listed container is unlimited, or when nothing is listed;
+// otherwise >= the (equally ratio-scaled) quota of every listed container. The amount handed to the conversion is
+// checked at the call (assert after call): -1, or >= every container's positive amount and >= any two together.
+//@ func (*plugin).SetPodCFSQuota [C14]
+//@   requires typeis(proto, *protocol.PodContext)
+//@   requires p != nil && p.rule != nil
+//@   let c = payload(proto, *protocol.PodContext)
+//@   let spec = c.Request.ExtendedResources
+//@   let active = c != nil && beLabels(c.Request.Labels) && spec != nil
+//@   let enabled = p.rule.enableCFSQuota == nil || deref(p.rule.enableCFSQuota)
+//@   let ratio = p.rule.cpuNormalizationRatio != nil ? deref(p.rule.cpuNormalizationRatio) : 0 - 1
+//@   let q = deref(c.Response.Resources.CFSQuota)
+//@   requires active ==> len(spec.Containers) <= 1000 && (forall k string :: has(spec.Containers, k) ==> batchCPU(spec.Containers[k].Limits) <= 50000000000)   // keeps the sum inside MilliCPUToQuota's proven range
+//@   ensures #nilctx: (c == nil) == (result != nil)
+//@   ensures #untouched: c != nil && !active ==> c.Response.Resources.CFSQuota == old(c.Response.Resources.CFSQuota)
+//@   ensures #set: active ==> c.Response.Resources.CFSQuota != nil
+//@   ensures #disabled: active && !enabled ==> q == 0 - 1
+//@   ensures #unlimited: active && enabled ==> (q == 0 - 1 <==> ((exists k string :: has(spec.Containers, k) && batchCPU(spec.Containers[k].Limits) <= 0) || (forall k string :: !has(spec.Containers, k))))
+//@   ensures #notighter_plain: active && q != 0 - 1 && !(ratio > 1) ==> (forall k string :: has(spec.Containers, k) ==> q >= quotaOf(batchCPU(spec.Containers[k].Limits)))
+//@   ensures #notighter_scaled: active && q != 0 - 1 && ratio > 1 ==> (forall k string :: has(spec.Containers, k) ==> q >= scaled(quotaOf(batchCPU(spec.Containers[k].Limits)), ratio))
+//@   ensures #single: active && enabled ==> (forall k string :: has(spec.Containers, k) && (forall j string :: has(spec.Containers, j) ==> j == k) ==> q == scaled(quotaOf(batchCPU(spec.Containers[k].Limits)), ratio))
+//@   modifies c.Response.Resources.CFSQuota
+//@   assert after call MilliCPUToQuota: $arg0 == 0 - 1 || ((forall k string :: has(extendedResourceSpec.Containers, k) ==> batchCPU(extendedResourceSpec.Containers[k].Limits) > 0 && $arg0 >= batchCPU(extendedResourceSpec.Containers[k].Limits)) && (forall k string, j string :: has(extendedResourceSpec.Containers, k) && has(extendedResourceSpec.Containers, j) && k != j ==> $arg0 >= batchCPU(extendedResourceSpec.Containers[k].Limits) + batchCPU(extendedResourceSpec.Containers[j].Limits)))
+//@   loop 1 invariant milliCPULimit <= 50000000000 * $n
+//@   loop 1 invariant milliCPULimit >= 0 && ((forall k string :: !$seen[k]) ==> milliCPULimit == 0)
+//@   loop 1 invariant forall k string :: $seen[k] ==> has(extendedResourceSpec.Containers, k) && batchCPU(extendedResourceSpec.Containers[k].Limits) > 0 && milliCPULimit >= batchCPU(extendedResourceSpec.Containers[k].Limits)
+//@   loop 1 invariant forall k string, j string :: $seen[k] && $seen[j] && k != j ==> milliCPULimit >= batchCPU(extendedResourceSpec.Containers[k].Limits) + batchCPU(extendedResourceSpec.Containers[j].Limits)
+//@   loop 1 invariant forall k string :: $seen[k] && (forall j string :: $seen[j] ==> j == k) ==> milliCPULimit == batchCPU(extendedResourceSpec.Containers[k].Limits)
+
+// The registered pod hook (PreRunPodSandbox): the three pod-level values together; no pod value is tighter than the
+// corresponding value of any listed container.
+//@ func (*plugin).SetPodResources [C14]
+//@   requires typeis(proto, *protocol.PodContext)
+//@   requires p != nil && p.rule != nil
+//@   let c = payload(proto, *protocol.PodContext)
+//@   let spec = c.Request.ExtendedResources
+//@   let active = c != nil && beLabels(c.Request.Labels) && spec != nil
+//@   let enabled = p.rule.enableCFSQuota == nil || deref(p.rule.enableCFSQuota)
+//@   let ratio = p.rule.cpuNormalizationRatio != nil ? deref(p.rule.cpuNormalizationRatio) : 0 - 1
+//@   let shares = deref(c.Response.Resources.CPUShares)
+//@   let q = deref(c.Response.Resources.CFSQuota)
+//@   let mem = deref(c.Response.Resources.MemoryLimit)
+//@   requires active ==> len(spec.Containers) <= 1000 && (forall k string :: has(spec.Containers, k) ==> batchCPU(spec.Containers[k].Requests) <= 1000000000000 && batchCPU(spec.Containers[k].Limits) <= 50000000000)
+//@   ensures #untouched: c != nil && !active ==> c.Response.Resources.CPUShares == old(c.Response.Resources.CPUShares) && c.Response.Resources.CFSQuota == old(c.Response.Resources.CFSQuota) && c.Response.Resources.MemoryLimit == old(c.Response.Resources.MemoryLimit)
+//@   ensures #set: active ==> c.Response.Resources.CPUShares != nil && c.Response.Resources.CFSQuota != nil && c.Response.Resources.MemoryLimit != nil
+//@   ensures #shares: active ==> (forall k string :: has(spec.Containers, k) ==> shares >= sharesOf(batchCPU(spec.Containers[k].Requests)))
+//@   ensures #quota_unlimited: active ==> (q == 0 - 1 <==> (!enabled || (exists k string :: has(spec.Containers, k) && batchCPU(spec.Containers[k].Limits) <= 0) || (forall k string :: !has(spec.Containers, k))))
+//@   ensures #quota: active && q != 0 - 1 ==> (forall k string :: has(spec.Containers, k) ==> q >= scaled(quotaOf(batchCPU(spec.Containers[k].Limits)), ratio))
+//@   ensures #memory_unlimited: active && (exists k string :: has(spec.Containers, k) && batchMem(spec.Containers[k].Limits) <= 0) ==> mem == 0 - 1
+//@   ensures #memory: active && mem != 0 - 1 ==> (forall k string :: has(spec.Containers, k) ==> mem >= batchMem(spec.Containers[k].Limits))
+//@   modifies c.Response.Resources.CPUShares, c.Response.Resources.CFSQuota, c.Response.Resources.MemoryLimit
+
+// ---- rule.go: the CFS-quota switch and the CPU normalization ratio ----
+
+//@ func (*Rule).GetCFSQuotaScaleRatio [C14]
+//@   requires r != nil
+//@   ensures #enabled: result0 <==> (r.enableCFSQuota == nil || deref(r.enableCFSQuota))
+//@   ensures #ratio: result1 == ((result0 && r.cpuNormalizationRatio != nil) ? deref(r.cpuNormalizationRatio) : 0 - 1)
+//@   modifies nothing
+
+// (*Rule).UpdateCFSQuotaEnabled / UpdateCPUNormalizationRatio are outside the engine's subset
+// ("address of a local stored into the heap"): no contract.
